@@ -557,4 +557,155 @@ theorem compile_stable : ∀ (e : Expr) (m : Mode) (F : Frame) (code : Code) (ou
     obtain ⟨G4, gct, gs4, gt4⟩ := iht _ F3 ct ot F4 hct hw3 G3 w3 n3 l3 gt3
     exact ⟨G4, by simp [compile, ga, gcc, hrc, gp, gct], gs1.trans (gs2.trans (gs3.trans gs4)), gt4⟩
 
+/-! ## the NewFrame register count only grows -/
+
+/-- `temporaries_used_in_frame` only grows -/
+def TmLe (F F' : Frame) : Prop := F.tmax ≤ F'.tmax
+
+theorem TmLe.refl (F : Frame) : TmLe F F := Nat.le_refl _
+theorem TmLe.trans {A B C : Frame} (h1 : TmLe A B) (h2 : TmLe B C) : TmLe A C := Nat.le_trans h1 h2
+theorem TmLe.of_eq {F F' : Frame} (h : F'.tmax = F.tmax) : TmLe F F' := Nat.le_of_eq h.symm
+
+theorem pushReg_tmax {F F1 : Frame} {r : Reg} (h : F.pushReg = some (r, F1)) : TmLe F F1 := by
+  unfold Frame.pushReg at h
+  simp only at h
+  split at h
+  · cases h
+  · cases h; exact Nat.le_max_left _ _
+
+theorem assignResult_tmax {m : Mode} {F F1 : Frame} {res : Out} (h : assignResult m F = some (res, F1)) :
+    TmLe F F1 := by
+  unfold assignResult at h
+  cases m with
+  | fixed r => simp at h; obtain ⟨_, rfl⟩ := h; exact TmLe.refl _
+  | none => simp at h; obtain ⟨_, rfl⟩ := h; exact TmLe.refl _
+  | any =>
+    simp only [Option.map_eq_some_iff, Prod.exists] at h
+    obtain ⟨r, F2, hp, h⟩ := h
+    simp only [Prod.mk.injEq] at h
+    obtain ⟨_, rfl⟩ := h
+    exact pushReg_tmax hp
+
+theorem popIf_tmax {b : Bool} {F F1 : Frame} (h : popIf b F = some F1) : TmLe F F1 := by
+  unfold popIf at h
+  cases b with
+  | false => simp at h; subst h; exact TmLe.refl _
+  | true =>
+    simp only [if_true] at h
+    unfold Frame.popReg at h
+    split at h
+    · cases h
+    · cases h; exact TmLe.refl _
+
+theorem resultOrTemp_tmax {res : Out} {F F1 : Frame} {reg : Reg} (h : resultOrTemp res F = some (reg, F1)) :
+    TmLe F F1 := by
+  unfold resultOrTemp at h
+  cases hr : res.reg with
+  | some r => simp [hr] at h; obtain ⟨_, rfl⟩ := h; exact TmLe.refl _
+  | none => simp only [hr] at h; exact pushReg_tmax h
+
+theorem reserve_tmax {F F1 : Frame} {x : VarId} {r : Reg} (h : F.reserve x = some (r, F1)) : TmLe F F1 := by
+  unfold Frame.reserve at h
+  cases hg : F.getAssignedOrReserved x with
+  | some r0 => simp [hg] at h; obtain ⟨_, rfl⟩ := h; exact TmLe.refl _
+  | none =>
+    simp only [hg] at h
+    split at h
+    · cases h; exact TmLe.refl _
+    · cases h
+
+theorem commit_tmax {F F1 : Frame} {r : Reg} (h : F.commit r = some F1) : TmLe F F1 := by
+  unfold Frame.commit at h
+  split at h
+  · cases h; exact TmLe.refl _
+  · cases h; exact TmLe.refl _
+  · cases h
+
+theorem commitIf_tmax {o : Out} {vr : Reg} {F F1 : Frame} (h : commitIf o vr F = some F1) : TmLe F F1 := by
+  unfold commitIf at h
+  split at h
+  · cases h; exact TmLe.refl _
+  · exact commit_tmax h
+
+theorem compile_tmax : ∀ (e : Expr) (m : Mode) (F : Frame) (code : Code) (out : Out) (F' : Frame),
+    compile e m F = some (code, out, F') → TmLe F F' := by
+  intro e
+  induction e with
+  | null | bool _ | int _ =>
+    intro m F code out F' h
+    simp only [compile, bind, Option.bind_eq_some_iff, Prod.exists, pure, Option.some.injEq, Prod.mk.injEq] at h
+    obtain ⟨res, F1, ha, _, _, rfl⟩ := h
+    exact assignResult_tmax ha
+  | var x =>
+    intro m F code out F' h
+    simp only [compile] at h
+    cases hg : F.getAssigned x with
+    | none => simp [hg] at h
+    | some rx =>
+      simp only [hg] at h
+      cases m <;> (simp at h; obtain ⟨_, _, rfl⟩ := h; exact TmLe.refl _)
+  | un op e ih =>
+    intro m F code out F' h
+    simp only [compile, bind, Option.bind_eq_some_iff, Prod.exists, pure, Option.some.injEq, Prod.mk.injEq] at h
+    obtain ⟨res, F1, ha, c, o, F2, hc, vr, _, F3, hp, _, _, rfl⟩ := h
+    exact (assignResult_tmax ha).trans ((ih _ _ _ _ _ hc).trans (popIf_tmax hp))
+  | bin op a b iha ihb =>
+    intro m F code out F' h
+    simp only [compile, bind, Option.bind_eq_some_iff, Prod.exists] at h
+    obtain ⟨res, F1, ha, h⟩ := h
+    cases hr : res.reg with
+    | some r =>
+      simp only [hr, Option.bind_eq_some_iff, Prod.exists, pure, Option.some.injEq, Prod.mk.injEq] at h
+      obtain ⟨ca, oa, F2, hca, ra, _, cb, ob, F3, hcb, rb, _, F4, hp1, F5, hp2, _, _, rfl⟩ := h
+      exact (assignResult_tmax ha).trans ((iha _ _ _ _ _ hca).trans ((ihb _ _ _ _ _ hcb).trans
+        ((popIf_tmax hp1).trans (popIf_tmax hp2))))
+    | none =>
+      simp only [hr, Option.bind_eq_some_iff, Prod.exists, pure, Option.some.injEq, Prod.mk.injEq] at h
+      obtain ⟨ca, oa, F2, hca, cb, ob, F3, hcb, _, _, rfl⟩ := h
+      exact (assignResult_tmax ha).trans ((iha _ _ _ _ _ hca).trans (ihb _ _ _ _ _ hcb))
+  | cmp op a b iha ihb =>
+    intro m F code out F' h
+    simp only [compile, bind, Option.bind_eq_some_iff, Prod.exists, pure, Option.some.injEq, Prod.mk.injEq] at h
+    obtain ⟨res, F1, ha, r0, F1', hrt, ca, oa, F2, hca, ra, _, cb, ob, F3, hcb, rb, _, _, _, rfl⟩ := h
+    exact (assignResult_tmax ha).trans ((resultOrTemp_tmax hrt).trans ((iha _ _ _ _ _ hca).trans
+      ((ihb _ _ _ _ _ hcb).trans (TmLe.of_eq rfl))))
+  | chain3 op1 op2 a b c iha ihb ihc =>
+    intro m F code out F' h
+    simp only [compile, bind, Option.bind_eq_some_iff, Prod.exists, pure, Option.some.injEq, Prod.mk.injEq] at h
+    obtain ⟨res, F1, ha, r0, F1', hrt, ca, oa, F2, hca, ra, _, cb, ob, F3, hcb, rb, _, cc, oc, F4, hcc, rc, _, _, _, rfl⟩ := h
+    exact (assignResult_tmax ha).trans ((resultOrTemp_tmax hrt).trans ((iha _ _ _ _ _ hca).trans
+      ((ihb _ _ _ _ _ hcb).trans ((ihc _ _ _ _ _ hcc).trans (TmLe.of_eq rfl)))))
+  | and a b iha ihb | or a b iha ihb =>
+    intro m F code out F' h
+    simp only [compile, bind, Option.bind_eq_some_iff, Prod.exists, pure, Option.some.injEq, Prod.mk.injEq] at h
+    obtain ⟨res, F1, ha, reg, F2, hrt, ca, oa, F3, hca, cb, ob, F4, hcb, F5, hp, _, _, rfl⟩ := h
+    exact (assignResult_tmax ha).trans ((resultOrTemp_tmax hrt).trans ((iha _ _ _ _ _ hca).trans
+      ((ihb _ _ _ _ _ hcb).trans (popIf_tmax hp))))
+  | assign x e ih =>
+    intro m F code out F' h
+    simp only [compile, bind, Option.bind_eq_some_iff, Prod.exists, pure, Option.some.injEq, Prod.mk.injEq] at h
+    obtain ⟨rx, F1, hres, c, o, F2, hc, vr, _, F3, hcm, _, _, rfl⟩ := h
+    exact (reserve_tmax hres).trans ((ih _ _ _ _ _ hc).trans (commitIf_tmax hcm))
+  | compound op x e ih =>
+    intro m F code out F' h
+    simp only [compile, bind, Option.bind_eq_some_iff, Prod.exists, pure, Option.some.injEq, Prod.mk.injEq] at h
+    obtain ⟨res, F1, ha, cr, orr, F2, hc, rr, _, rl, _, F5, hp, _, _, rfl⟩ := h
+    exact (assignResult_tmax ha).trans ((ih _ _ _ _ _ hc).trans (popIf_tmax hp))
+  | seq a b iha ihb =>
+    intro m F code out F' h
+    simp only [compile, bind, Option.bind_eq_some_iff, Prod.exists, pure, Option.some.injEq, Prod.mk.injEq] at h
+    obtain ⟨ca, oa, F1, hca, cb, o, F2, hcb, _, _, rfl⟩ := h
+    exact (iha _ _ _ _ _ hca).trans (ihb _ _ _ _ _ hcb)
+  | ite c t e ihc iht ihe =>
+    intro m F code out F' h
+    simp only [compile, bind, Option.bind_eq_some_iff, Prod.exists, pure, Option.some.injEq, Prod.mk.injEq] at h
+    obtain ⟨res, F1, ha, cc, oc, F2, hcc, rc, _, F3, hp, ct, ot, F4, hct, ce, oe, F5, hce, _, _, rfl⟩ := h
+    exact (assignResult_tmax ha).trans ((ihc _ _ _ _ _ hcc).trans ((popIf_tmax hp).trans
+      ((iht _ _ _ _ _ hct).trans (ihe _ _ _ _ _ hce))))
+  | ifThen c t ihc iht =>
+    intro m F code out F' h
+    simp only [compile, bind, Option.bind_eq_some_iff, Prod.exists, pure, Option.some.injEq, Prod.mk.injEq] at h
+    obtain ⟨res, F1, ha, cc, oc, F2, hcc, rc, _, F3, hp, ct, ot, F4, hct, _, _, rfl⟩ := h
+    exact (assignResult_tmax ha).trans ((ihc _ _ _ _ _ hcc).trans ((popIf_tmax hp).trans (iht _ _ _ _ _ hct)))
+
 end KotoVerif.Compile
